@@ -42,7 +42,16 @@ func (o Out) Died() bool { return o.Signal != "" || o.TimedOut }
 // Run executes spok with cwd, HOME=home and extra environment, as nobody.
 // The environment is minimal and fully specified (no ambient leakage).
 func Run(cwd, home string, env []string, args ...string) Out {
+	return RunUmask(cwd, home, env, -1, args...)
+}
+
+// RunUmask is Run with the file mode creation mask of the spok process set to umask (-1: inherited).
+func RunUmask(cwd, home string, env []string, umask int, args ...string) Out {
 	cmd := exec.Command(Spok(), args...)
+	if umask >= 0 {
+		sh := fmt.Sprintf(`umask %04o; exec "$0" "$@"`, umask)
+		cmd = exec.Command("/bin/sh", append([]string{"-c", sh, Spok()}, args...)...)
+	}
 	cmd.Dir = cwd
 	cmd.Env = append([]string{"HOME=" + home, "PWD=" + cwd, "PATH=/usr/bin:/bin", "NO_COLOR=1", "TERM=dumb"}, env...)
 	var so, se bytes.Buffer
